@@ -570,6 +570,7 @@ func init() {
 		Not: "Timer instants, event orders, which connection survives a collision for given identifiers, and the correspondence of reported and real state over histories are not decided. Not armed: connections accepted while a session is already in progress are closed without a Cease, and the OpenSent FSM-error NOTIFICATION carries no data octet (both noted while triaging F9–F11, DESIGN.md §8.4).",
 		Run: func(c *Ctx) {
 			c.ruleRatchets("C07")
+			c.ruleValidatorTestsSubject("E6.validator-tests-message", map[string]int{"pkg/packet/bgp.ValidateOpenMsg": 0, "pkg/packet/bgp.ValidateUpdateMsg": 0, "pkg/packet/bgp.ValidateAttribute": 0}, 3)
 			c.ruleFSMTransitions()
 			c.ruleNotifications()
 			c.ruleUnexpectedMessages()
